@@ -90,6 +90,35 @@ def run(ctx):
                 ctx.violation("R-C11-2", key, "unwrap of %s in %s: the map comes from get_neighbors_of_nodes(%s, ..) at %s, so its keys are the caller's subset, but it is indexed by neighbours that need not be in the subset (panics for a proper subset)" % (norm_str(o), b.short, d, loc_str(t.span)), s.site())
     ctx.floor("R-C11-2", "neighbour_map_lookups", n_maps, 1)
 
+    # ------------------------------------------------------------------ R-C11-4
+    ctx.rule("R-C11-4", "self-loops never count: in the clustering kernels every operand of a neighbour-set intersection has had its own node removed (without / get_adjacent_nodes_without / difference)")
+    KERNEL_FILES = ("cluster::undirected::", "cluster::undirected_weighted::", "cluster::directed::", "cluster::directed_weighted::")
+    EXCL = ("HashSetExt::without", "utility::get_adjacent_nodes_without", "HashSet::difference")
+    n_int = 0
+    for p in sorted(prog.bodies):
+        b = prog.bodies[p]
+        if not any(k in b.short for k in KERNEL_FILES):
+            continue
+        fl = flows.of(b)
+        root = b
+        while root.kind == "closure":
+            root = prog.bodies[root.item["parent"]]
+        for t in b.calls():
+            if not t.callee or not t.callee.short.endswith("HashSet::intersection"):
+                continue
+            n_int += 1
+            bad = []
+            from engines import producers
+
+            for i, a in enumerate(t.args[:2]):
+                pr = producers(flows, b, a)
+                if not pr or not all(any(c.endswith(e) for e in EXCL) for c in pr):
+                    bad.append("operand %d = %s, produced by %s" % (i, panic.norm_str(fl.describe(a, depth=8)), sorted(x.split("::")[-1] for x in pr)))
+            key = "%s|%s" % (b.short, panic.shape_str(panic.norm(fl.describe(t.args[0], depth=6))))
+            ctx.require(not bad, "R-C11-4", key, "both operands of the intersection in %s are self-excluded neighbour sets" % b.short.split("::", 3)[-1], "an intersection in %s uses a neighbour set from which the node itself was not removed (%s): a self-loop is counted as a common neighbour" % (b.short, "; ".join(bad)), loc_str(t.span))
+    ctx.floor("R-C11-4", "intersections_in_kernels", n_int, 12)
+    ctx.note("square.rs removes the centre node after intersecting (different scheme) and is outside R-C11-4")
+
     # ------------------------------------------------------------------ R-C11-3
     ctx.rule("R-C11-3", "results of the subset-taking functions depend (data flow, not merely validation) on node_names")
     for sfx in ("cluster::clustering", "cluster::triangles", "cluster::generalized_degree", "cluster::average_clustering", "square::square_clustering"):
